@@ -114,7 +114,7 @@ Proof. exact list_passive_complete. Qed.
 Print Assumptions C02_listing_in_step.
 
 (* THE lockstep theorem over mixed histories. [history rfc calls script repliess] (History_Proofs.v) says: the calls are
-   simple commands, TYPE, rename, downloads, uploads (STOR / STOU / APPE), listings, downloads cancelled by the callback,
+   simple commands, TYPE, rename, login (every reply at every step), downloads, uploads (STOR / STOU / APPE), listings, downloads cancelled by the callback,
    transfers refused at the set-up command or at the transfer command, in any order and number, and [script] is the
    concatenation of what an RFC 959 server writes for each of them (one reply per command; preliminary + completion for an
    accepted transfer; 426 then the ABOR reply for a cancelled one), any codes, any texts, any payloads and segmentations.
@@ -122,7 +122,7 @@ Print Assumptions C02_listing_in_step.
    commands, and the session is in step again at the end - nothing unread, nothing held back, the rest of the peer's
    script untouched. (A prefix of a history is a history, so this holds after every call.) *)
 Theorem C02_lockstep_mixed_histories : forall cs rss xss w rest,
-  Inv w (rss ++ rest) -> history (c_rfc2428 (w_cfg w)) cs rss xss ->
+  Inv w (rss ++ rest) -> history (c_rfc2428 (w_cfg w)) (c_type (w_cfg w)) cs rss xss ->
   map outcome_replies (fst (steps w cs)) = map Some xss /\ Inv (snd (steps w cs)) rest.
 Proof. exact lockstep_mixed_histories. Qed.
 Print Assumptions C02_lockstep_mixed_histories.
@@ -135,7 +135,7 @@ Example C02_example_history_runs :
             [mkReply 229 [40;124;124;124;53;124;41]; mkReply 550 []]; [mkReply 257 []]].
 Proof. vm_compute. reflexivity. Qed.
 
-(* PARTIAL / recorded findings: (1) login / logout / connect inside mixed histories, transfers in the active modes or under
+(* PARTIAL / recorded findings: (1) logout / connect inside mixed histories, transfers in the active modes or under
    TLS inside histories (the single-call theorems exist, see Transfer_More.v), the completion reply written together with
    the preliminary one, and the other ABOR orders are covered by the correspondence and the lockstep oracle of
    bin/props/proto.py; (2) process_abort reads a second
@@ -183,7 +183,7 @@ Theorem C02_cancelled_download_in_step : forall w path answers answers' answers'
   r_now r3 = [RReply x4; RReply x5] -> r_on_close r3 = [] -> r_close_after r3 = false ->
   code x4 = 426 -> code x5 <> 421 ->
   exists w', step w (ADownload path (Some answers) None) = (OReturn (RvReplies [x1; x2; x4; x5]), w') /\
-    insync w' rest /\ w_data w' = None /\
+    insync w' rest /\ w_data w' = None /\ w_cfg w' = w_cfg w /\
     wire_events (skipn (length (w_trace w)) (w_trace w')) =
       [WLine (setup_line (w_cfg w)); WReply x1; WLine (RETR_ ++ SP :: path); WReply x2; WLine ABOR_; WReply x4; WReply x5] /\
     data_events (skipn (length (w_trace w)) (w_trace w')) = [DNewObj; DConnectTo ip port true; DClose] /\
